@@ -53,8 +53,7 @@ theorem InvR.step {s s' : State} (h : Step s s') (hS : InvS s) (hF : InvF s) (hW
       | (refine InvR'.frame hi' t _ rfl ?_ ?_ ?_ rfl ?_ (Nat.le_refl _) rfl <;> (simp [hpc]; done))
       | (obtain ⟨_, _, _, _, _, _, _, _, _, gR, retT⟩ := hF'
          obtain ⟨retReady, noRetGot, resG, resT, resF, resReady⟩ := hi'
-         constructor <;> intros <;> (try dsimp only at *) <;> first | assumption | grind [upd_apply, setRet])
-      | (trace_state; sorry))
+         constructor <;> intros <;> (try dsimp only at *) <;> first | assumption | grind [upd_apply, setRet]))
   | tick d =>
     obtain ⟨retReady, noRetGot, resG, resT, resF, resReady⟩ := hi hb
     constructor <;> intros <;> (try dsimp only at *) <;> first | assumption | grind
